@@ -53,7 +53,13 @@ def parseModSrc (ts : List String) : Option ModSrc :=
     let (gg, r8) ← takeGroups 'G' 1 r7
     let (bg, r9) ← takeGroups 'B' 1 r8
     let (xg, r10) ← takeGroups 'X' 2 r9
-    let (yg, _) ← takeGroups 'Y' 2 r10
+    let (yg, r11) ← takeGroups 'Y' 2 r10
+    -- optional trailing groups: submodule names, top-level nodes, (module, node) per augment / deviation statement
+    let opt := fun (tag : Char) (w : Nat) (ts : List String) => (takeGroups tag w ts).getD ([], ts)
+    let (sg, r12) := opt 'S' 1 r11
+    let (tg, r13) := opt 'T' 1 r12
+    let (qg, r14) := opt 'Q' 2 r13
+    let (dg, _) := opt 'D' 2 r14
     let faults : List (Stage × Nat) := xg.filterMap fun x =>
       let stage : Option Stage := match x.getD 0 "" with
         | "syntax" => some .syntax | "late" => some .late | "impl" => some .impl
@@ -67,7 +73,10 @@ def parseModSrc (ts : List String) : Option ModSrc :=
            augments := ag.map (fun x => bs (x.getD 0 "")), deviations := vg.map (fun x => bs (x.getD 0 "")),
            lrefs := rg.map (fun x => bs (x.getD 0 "")), usesGrp := gg.map (fun x => bs (x.getD 0 "")),
            idBase := bg.map (fun x => bs (x.getD 0 "")), faults := faults,
-           badAmend := yg.filterMap fun x => (x.getD 1 "").toNat?.map fun n => (bs (x.getD 0 ""), n) }
+           badAmend := yg.filterMap fun x => (x.getD 1 "").toNat?.map fun n => (bs (x.getD 0 ""), n),
+           subNames := sg.map (fun x => bs (x.getD 0 "")), nodes := tg.map (fun x => bs (x.getD 0 "")),
+           augTargets := qg.map (fun x => (bs (x.getD 0 ""), bs (x.getD 1 ""))),
+           devTargets := dg.map (fun x => (bs (x.getD 0 ""), bs (x.getD 1 ""))) }
   | _ => none
 
 def hexDigit (n : Nat) : Char := Hex.digit n
@@ -101,6 +110,24 @@ def classOf (st : St) (k : MKey) (d : Desc × List Bytes) : St × Nat :=
 def featStr (m : Mod) : String :=
   ",".intercalate (m.allFeats.map fun f => str f.name ++ (if f.on then "+" else "-"))
 
+def dashIfEmpty (s : String) : String := if s.isEmpty then "-" else s
+def keyStr (k : MKey) : String := str k.1 ++ "@" ++ (if k.2.isEmpty then "-" else str k.2)
+def namesStr (l : List Bytes) : String := ",".intercalate (l.map str)
+
+/-- `:A<augmented_by>:V<deviated_by>:N<compiled top-level nodes>`: the arrays of `struct lys_module` in array order, and of an
+    implemented, compiled module every top-level data node with the modules that augmented / deviated it -/
+def amendStr (m : Mod) : String :=
+  "A" ++ dashIfEmpty (",".intercalate (m.augBy.map keyStr)) ++ ":V" ++ dashIfEmpty (",".intercalate (m.devBy.map keyStr)) ++ ":N" ++
+    (match m.implemented, m.compiled with
+     | true, some (_, d) => dashIfEmpty ("+".intercalate (d.nodes.map fun n => str n.1 ++ "(" ++ namesStr n.2.1 ++ "/" ++ namesStr n.2.2 ++ ")"))
+     | _, _ => "-")
+
+/-- the token `X…` of `ylhistory`: the yang-library data of the context (`module`, `import-only-module`, `content-id`) -/
+def ylStr (y : YlFull) : String :=
+  "Xm=" ++ ";".intercalate (y.modules.map fun e => keyStr (e.name, e.rev) ++ "[" ++ namesStr e.feats ++ "]{" ++ namesStr e.subs ++ "}<"
+    ++ namesStr e.devs ++ ">") ++ "|i=" ++ ";".intercalate (y.importOnly.map fun e => keyStr (e.name, e.rev) ++ "{" ++ namesStr e.subs ++ "}")
+    ++ "|id=" ++ toString y.contentId
+
 def snapshot (st : St) (rc : Nat) : St :=
   let (st1, parts) := st.ctx.mods.foldl (fun (acc : St × List String) m =>
     let (s0, ps) := acc
@@ -111,7 +138,7 @@ def snapshot (st : St) (rc : Nat) : St :=
         (s1, "c" ++ toString i ++ "." ++ hex32 (descHash dd))
       | _, _ => (s0, "c-")
     (s1, ps ++ [str m.src.name ++ "@" ++ (if m.src.rev.isEmpty then "-" else str m.src.rev) ++ ":I" ++ (if m.implemented then "1" else "0")
-      ++ ":L" ++ String.singleton (hexDigit m.latest.toNat) ++ ":" ++ featStr m ++ ":" ++ c])) (st, [])
+      ++ ":L" ++ String.singleton (hexDigit m.latest.toNat) ++ ":" ++ featStr m ++ ":" ++ c ++ ":" ++ amendStr m])) (st, [])
   let (data', dstr) := st1.data.foldl (fun (acc : List (Bytes × Nat × Bool) × String) d =>
     let (l, s) := acc
     let (name, id, live) := d
@@ -210,7 +237,7 @@ def ylhistory (spec : String) : String :=
       | .ok c2 =>
         let st2 := snapshot { st with ctx := c2, data := [], out := [] } 0
         "Y" ++ ((st2.out.getD 0 "").drop 1)
-    "ok" ++ String.join (st.out.map (" " ++ ·)) ++ " " ++ tail
+    "ok" ++ String.join (st.out.map (" " ++ ·)) ++ " " ++ ylStr (ylExport st.ctx) ++ " " ++ tail
 
 def handle (op : String) (args : List String) : String :=
   match op, args with
